@@ -204,74 +204,46 @@ Qed.
 (* _export_iter_entries = the component-level selection *)
 Definition lift (p : bytes * entry) : cpath * entry := (splitc (fst p), snd p).
 
-Lemma iter1_spec filtered sd e :
-  option_map lift (iter1 filtered sd e)
-  = spec1 (negb filtered) (option_map splitc sd) (abstract e).
+Lemma iter1_spec sd e :
+  option_map lift (iter1 sd e)
+  = spec1 true (option_map splitc sd) (abstract e).
 Proof.
   unfold iter1, spec1, abstract; cbn [fst snd].
   rewrite is_root_splitc.
   destruct (is_empty (e_path e)) eqn:Hemp; [reflexivity|].
-  unfold is_special_path. rewrite <- special_splitc.
-  destruct filtered; cbn [negb andb].
-  - (* filtered: nothing is special *)
-    destruct sd as [s|]; cbn [option_map spec_rel fst snd]; [|reflexivity].
-    destruct (bytes_eqb (e_path e) s) eqn:Heq.
-    + apply bytes_eqb_eq in Heq; subst s.
-      rewrite <- (app_nil_r (splitc (e_path e))) at 2. rewrite strip_prefix_app.
-      destruct (e_kind e); cbn [option_map]; unfold lift; cbn [fst snd]; try reflexivity;
-        rewrite splitc_basename; reflexivity.
-    + destruct (prefixb (s ++ [SL]) (e_path e)) eqn:Hp.
-      * apply prefixb_split in Hp. rewrite app_length in Hp; simpl in Hp.
-        rewrite <- app_assoc in Hp; simpl in Hp.
-        cbn [option_map]; unfold lift; cbn [fst snd].
-        set (r := skipn (List.length s + 1) (e_path e)) in *.
-        rewrite Hp at 1. rewrite splitc_app, strip_prefix_app.
-        pose proof (splitc_nonnil r). destruct (splitc r) eqn:Er; [congruence|]. reflexivity.
-      * cbn [option_map].
-        destruct (strip_prefix (splitc s) (splitc (e_path e))) as [rel|] eqn:Hs; [|reflexivity].
-        exfalso. apply strip_prefix_some in Hs.
-        destruct rel as [|r0 rel].
-        -- rewrite app_nil_r in Hs. apply splitc_inj in Hs. apply bytes_eqb_neq in Heq. congruence.
-        -- assert (e_path e = s ++ SL :: join [SL] (r0 :: rel)) as Hx.
-           { rewrite <- (join_splitc (e_path e)), Hs, join_app
-               by (apply splitc_nonnil || discriminate).
-             rewrite join_splitc; reflexivity. }
-           rewrite Hx in Hp.
-           replace (s ++ SL :: join [SL] (r0 :: rel)) with ((s ++ [SL]) ++ join [SL] (r0 :: rel)) in Hp
-             by (rewrite <- app_assoc; reflexivity).
-           rewrite prefixb_app in Hp. discriminate.
-  - destruct (prefixb dot_bzr (e_path e)); [reflexivity|].
-    destruct sd as [s|]; cbn [option_map spec_rel fst snd]; [|reflexivity].
-    destruct (bytes_eqb (e_path e) s) eqn:Heq.
-    + apply bytes_eqb_eq in Heq; subst s.
-      rewrite <- (app_nil_r (splitc (e_path e))) at 2. rewrite strip_prefix_app.
-      destruct (e_kind e); cbn [option_map]; unfold lift; cbn [fst snd]; try reflexivity;
-        rewrite splitc_basename; reflexivity.
-    + destruct (prefixb (s ++ [SL]) (e_path e)) eqn:Hp.
-      * apply prefixb_split in Hp. rewrite app_length in Hp; simpl in Hp.
-        rewrite <- app_assoc in Hp; simpl in Hp.
-        cbn [option_map]; unfold lift; cbn [fst snd].
-        set (r := skipn (List.length s + 1) (e_path e)) in *.
-        rewrite Hp at 1. rewrite splitc_app, strip_prefix_app.
-        pose proof (splitc_nonnil r). destruct (splitc r) eqn:Er; [congruence|]. reflexivity.
-      * cbn [option_map].
-        destruct (strip_prefix (splitc s) (splitc (e_path e))) as [rel|] eqn:Hs; [|reflexivity].
-        exfalso. apply strip_prefix_some in Hs.
-        destruct rel as [|r0 rel].
-        -- rewrite app_nil_r in Hs. apply splitc_inj in Hs. apply bytes_eqb_neq in Heq. congruence.
-        -- assert (e_path e = s ++ SL :: join [SL] (r0 :: rel)) as Hx.
-           { rewrite <- (join_splitc (e_path e)), Hs, join_app
-               by (apply splitc_nonnil || discriminate).
-             rewrite join_splitc; reflexivity. }
-           rewrite Hx in Hp.
-           replace (s ++ SL :: join [SL] (r0 :: rel)) with ((s ++ [SL]) ++ join [SL] (r0 :: rel)) in Hp
-             by (rewrite <- app_assoc; reflexivity).
-           rewrite prefixb_app in Hp. discriminate.
+  unfold is_special_path. rewrite <- special_splitc. cbn [andb].
+  destruct (prefixb dot_bzr (e_path e)); [reflexivity|].
+  destruct sd as [s|]; cbn [option_map spec_rel fst snd]; [|reflexivity].
+  destruct (bytes_eqb (e_path e) s) eqn:Heq.
+  + apply bytes_eqb_eq in Heq; subst s.
+    rewrite <- (app_nil_r (splitc (e_path e))) at 2. rewrite strip_prefix_app.
+    destruct (e_kind e); cbn [option_map]; unfold lift; cbn [fst snd]; try reflexivity;
+      rewrite splitc_basename; reflexivity.
+  + destruct (prefixb (s ++ [SL]) (e_path e)) eqn:Hp.
+    * apply prefixb_split in Hp. rewrite app_length in Hp; simpl in Hp.
+      rewrite <- app_assoc in Hp; simpl in Hp.
+      cbn [option_map]; unfold lift; cbn [fst snd].
+      set (r := skipn (List.length s + 1) (e_path e)) in *.
+      rewrite Hp at 1. rewrite splitc_app, strip_prefix_app.
+      pose proof (splitc_nonnil r). destruct (splitc r) eqn:Er; [congruence|]. reflexivity.
+    * cbn [option_map].
+      destruct (strip_prefix (splitc s) (splitc (e_path e))) as [rel|] eqn:Hs; [|reflexivity].
+      exfalso. apply strip_prefix_some in Hs.
+      destruct rel as [|r0 rel].
+      -- rewrite app_nil_r in Hs. apply splitc_inj in Hs. apply bytes_eqb_neq in Heq. congruence.
+      -- assert (e_path e = s ++ SL :: join [SL] (r0 :: rel)) as Hx.
+         { rewrite <- (join_splitc (e_path e)), Hs, join_app
+             by (apply splitc_nonnil || discriminate).
+           rewrite join_splitc; reflexivity. }
+         rewrite Hx in Hp.
+         replace (s ++ SL :: join [SL] (r0 :: rel)) with ((s ++ [SL]) ++ join [SL] (r0 :: rel)) in Hp
+           by (rewrite <- app_assoc; reflexivity).
+         rewrite prefixb_app in Hp. discriminate.
 Qed.
 
-Theorem select_exact filtered sd es :
-  map lift (export_iter_entries filtered sd es)
-  = spec_select (negb filtered) (option_map splitc (norm_subdir sd)) (map abstract es).
+Theorem select_exact sd es :
+  map lift (export_iter_entries sd es)
+  = spec_select true (option_map splitc (norm_subdir sd)) (map abstract es).
 Proof.
   unfold export_iter_entries, spec_select.
   rewrite map_filtermap, filtermap_map.
@@ -414,12 +386,12 @@ Qed.
 Lemma wf_entries_in es e : wf_entries es = true -> In e es -> wf_comps (splitc (e_path e)) = true.
 Proof. unfold wf_entries. rewrite forallb_forall. auto. Qed.
 
-Lemma selected_good filtered sd es fp e :
-  wf_entries es = true -> In (fp, e) (export_iter_entries filtered sd es) ->
+Lemma selected_good sd es fp e :
+  wf_entries es = true -> In (fp, e) (export_iter_entries sd es) ->
   good_final fp /\ In e es.
 Proof.
   intros W H. unfold export_iter_entries in H. apply in_filtermap in H as [e0 [Hin Hsel]].
-  pose proof (iter1_spec filtered (norm_subdir sd) e0) as HS. rewrite Hsel in HS.
+  pose proof (iter1_spec (norm_subdir sd) e0) as HS. rewrite Hsel in HS.
   cbn [option_map] in HS. symmetry in HS.
   apply spec1_good in HS; [|apply (wf_entries_in es); assumption].
   unfold lift in HS; cbn [fst snd abstract] in HS. destruct HS as [G [_ He]].
@@ -427,61 +399,18 @@ Proof.
 Qed.
 
 (* ------------------------------------------------------------------ *)
-(* mapM of a function that cannot fail on the list *)
-Lemma mapM_ok {A B} (f : A -> res B) (g : A -> B) l :
-  (forall x, In x l -> f x = Ok (g x)) -> mapM f l = Ok (map g l).
-Proof.
-  induction l as [|x l IH]; intro H; [reflexivity|].
-  cbn [mapM map]. rewrite (H x) by (left; reflexivity).
-  rewrite IH by (intros; apply H; right; assumption). reflexivity.
-Qed.
-
-(* the side conditions under which the --filters code path does not crash *)
-Definition filtered_ok (filtered : bool) (force : option Z) (es : list entry) : Prop :=
-  filtered = true ->
-  force <> None /\ forall e, In e es -> e_kind e <> KLink.
-
-Lemma mtime_ok filtered force es e :
-  filtered_ok filtered force es -> exists t, mtime_of filtered force e = Ok t.
-Proof.
-  intro F. unfold mtime_of. destruct force as [t|]; [eauto|].
-  destruct filtered; [|eauto]. destruct (F eq_refl) as [Hf _]. congruence.
-Qed.
-
-(* ------------------------------------------------------------------ *)
 (* tar: the members decode to exactly the re-rooted selection *)
-Definition tar_pure (filtered : bool) (root : bytes) (force : option Z) (fe : bytes * entry) : titem :=
-  let filename := pathjoin root (fst fe) in
-  let e := snd fe in
-  let mt := match mtime_of filtered force e with Ok t => t | Er _ => 0%Z end in
-  match e_kind e with
-  | KFile => mkT filename TReg (if e_exec e then M755 else M644) (file_text filtered e) [] mt
-  | KDir => mkT (filename ++ [SL]) TDir M755 [] [] mt
-  | KLink => mkT filename TSym M755 [] (e_target e) mt
-  end.
-
-Lemma prepare_pure filtered root force es fe :
-  filtered_ok filtered force es -> In (snd fe) es ->
-  prepare_tarball_item filtered root force fe = Ok (tar_pure filtered root force fe).
-Proof.
-  intros F Hin. destruct fe as [fp e]. unfold prepare_tarball_item, tar_pure. cbn [fst snd] in *.
-  destruct (mtime_ok filtered force es e F) as [t Ht]. rewrite Ht.
-  destruct (e_kind e) eqn:K; try reflexivity.
-  unfold symlink_target. destruct filtered; [|reflexivity].
-  destruct (F eq_refl) as [_ Hl]. exfalso. exact (Hl e Hin K).
-Qed.
-
 Lemma strip_one_sl_dir s : strip_one_sl (s ++ [SL]) = s.
 Proof.
   unfold strip_one_sl, ends_with_sl. rewrite last_last, N.eqb_refl. apply removelast_last.
 Qed.
 
-Lemma tar_decode_pure filtered root force fe :
+Lemma tar_decode_item filtered root force fe :
   good_final (fst fe) ->
-  tar_decode (tar_pure filtered root force fe)
+  tar_decode (prepare_tarball_item filtered root force fe)
   = (root_comps root ++ splitc (fst fe), node_of filtered (snd fe)).
 Proof.
-  intro G. destruct fe as [fp e]. unfold tar_pure, tar_decode, node_of. cbn [fst snd] in *.
+  intro G. destruct fe as [fp e]. unfold prepare_tarball_item, tar_decode, node_of. cbn [fst snd] in *.
   destruct (e_kind e); cbn [t_type t_name t_content t_mode t_link].
   - rewrite splitc_pathjoin by exact G. destruct (e_exec e); reflexivity.
   - rewrite strip_one_sl_dir, splitc_pathjoin by exact G. reflexivity.
@@ -489,89 +418,38 @@ Proof.
 Qed.
 
 Lemma spec_export_via_select filtered rootc sd es :
-  spec_export filtered (negb filtered) rootc (option_map splitc (norm_subdir sd)) (map abstract es)
+  spec_export filtered true rootc (option_map splitc (norm_subdir sd)) (map abstract es)
   = map (fun fe => (rootc ++ splitc (fst fe), node_of filtered (snd fe)))
-        (export_iter_entries filtered sd es).
+        (export_iter_entries sd es).
 Proof.
   unfold spec_export. rewrite <- select_exact, map_map. reflexivity.
 Qed.
 
 Theorem tar_entries_exact filtered root sd force es :
-  wf_entries es = true -> filtered_ok filtered force es ->
-  exists items,
-    tarball_items filtered root sd force es = Ok items /\
-    map tar_decode items
-    = spec_export filtered (negb filtered) (root_comps root)
-                  (option_map splitc (norm_subdir sd)) (map abstract es).
+  wf_entries es = true ->
+  map tar_decode (tarball_items filtered root sd force es)
+  = spec_export filtered true (root_comps root)
+                (option_map splitc (norm_subdir sd)) (map abstract es).
 Proof.
-  intros W F. exists (map (tar_pure filtered root force) (export_iter_entries filtered sd es)).
-  split.
-  - unfold tarball_items. apply mapM_ok. intros [fp e] Hin.
-    apply (prepare_pure filtered root force es); [exact F|].
-    apply (selected_good filtered sd es fp e W Hin).
-  - rewrite spec_export_via_select, map_map. apply map_ext_in. intros [fp e] Hin.
-    apply tar_decode_pure. apply (selected_good filtered sd es fp e W Hin).
+  intros W. unfold tarball_items.
+  rewrite spec_export_via_select, map_map. apply map_ext_in. intros [fp e] Hin.
+  apply tar_decode_item. apply (selected_good sd es fp e W Hin).
 Qed.
 
 (* ------------------------------------------------------------------ *)
 (* dir: same, without a root *)
-Definition dir_pure (filtered : bool) (force : option Z) (fe : bytes * entry) : ditem :=
-  let e := snd fe in
-  match e_kind e with
-  | KFile => mkD (fst fe) KFile (e_exec e) (file_text filtered e) []
-                 (match mtime_of filtered force e with Ok t => Some t | Er _ => None end)
-  | KDir => mkD (fst fe) KDir false [] [] None
-  | KLink => mkD (fst fe) KLink false [] (e_target e) None
-  end.
-
-Lemma dir_first_ok filtered force es fe :
-  filtered_ok filtered force es -> In (snd fe) es ->
-  exists d, dir_first_pass filtered fe = Ok d.
-Proof.
-  intros F Hin. destruct fe as [fp e]. unfold dir_first_pass. cbn [snd] in Hin.
-  destruct (e_kind e) eqn:K; eauto.
-  unfold symlink_target. destruct filtered; [|eauto].
-  destruct (F eq_refl) as [_ Hl]. exfalso. exact (Hl e Hin K).
-Qed.
-
-Lemma dir_final_pure filtered force es fe :
-  filtered_ok filtered force es -> In (snd fe) es ->
-  dir_final filtered force fe = Ok (dir_pure filtered force fe).
-Proof.
-  intros F Hin. destruct fe as [fp e]. unfold dir_final, dir_pure, dir_first_pass. cbn [fst snd] in *.
-  destruct (mtime_ok filtered force es e F) as [t Ht]. rewrite Ht.
-  destruct (e_kind e) eqn:K; try reflexivity.
-  unfold symlink_target. destruct filtered; [|reflexivity].
-  destruct (F eq_refl) as [_ Hl]. exfalso. exact (Hl e Hin K).
-Qed.
-
-Lemma mapM_ok_ex {A B} (f : A -> res B) l :
-  (forall x, In x l -> exists y, f x = Ok y) -> exists ys, mapM f l = Ok ys.
-Proof.
-  induction l as [|x l IH]; intro H; [eexists; reflexivity|].
-  destruct (H x (or_introl eq_refl)) as [y Hy].
-  destruct IH as [ys Hys]; [intros; apply H; right; assumption|].
-  exists (y :: ys). cbn [mapM]. rewrite Hy, Hys. reflexivity.
-Qed.
-
 Theorem dir_entries_exact filtered sd force pre es :
-  wf_entries es = true -> filtered_ok filtered force es -> pre <> DNonEmpty ->
+  wf_entries es = true -> pre <> DNonEmpty ->
   exists items,
     dir_items filtered sd force pre es = Ok items /\
     map dir_decode items
-    = spec_export filtered (negb filtered) [] (option_map splitc (norm_subdir sd)) (map abstract es).
+    = spec_export filtered true [] (option_map splitc (norm_subdir sd)) (map abstract es).
 Proof.
-  intros W F Hpre. exists (map (dir_pure filtered force) (export_iter_entries filtered sd es)).
+  intros W Hpre. exists (map (dir_item filtered force) (export_iter_entries sd es)).
   split.
-  - unfold dir_items. destruct pre; try congruence.
-    all: destruct (mapM_ok_ex (dir_first_pass filtered) (export_iter_entries filtered sd es)) as [ds Hds];
-      [intros [fp e] Hin; apply (dir_first_ok filtered force es); [exact F|];
-       apply (selected_good filtered sd es fp e W Hin)|];
-      rewrite Hds; apply mapM_ok; intros [fp e] Hin;
-      apply (dir_final_pure filtered force es); [exact F|];
-      apply (selected_good filtered sd es fp e W Hin).
+  - unfold dir_items. destruct pre; congruence.
   - rewrite spec_export_via_select, map_map. apply map_ext_in. intros [fp e] _.
-    unfold dir_pure, dir_decode, node_of. cbn [fst snd app].
+    unfold dir_item, dir_decode, node_of. cbn [fst snd app].
     destruct (e_kind e); reflexivity.
 Qed.
 
@@ -581,30 +459,9 @@ Theorem dir_nonempty_refused filtered sd force es :
 Proof. reflexivity. Qed.
 
 (* ------------------------------------------------------------------ *)
-(* zip: exact only without executable files and symlinks *)
+(* zip: exact (executable bits included, since 552504a) for trees without symlinks *)
 Definition zip_guard (es : list entry) : Prop :=
-  forall e, In e es -> e_kind e <> KLink /\ (e_kind e = KFile -> e_exec e = false).
-
-Definition zip_pure (filtered : bool) (root : bytes) (force : option Z) (fe : bytes * entry) : zitem :=
-  let filename := pathjoin root (fst fe) in
-  let e := snd fe in
-  let mt := match mtime_of filtered force e with Ok t => t | Er _ => 0%Z end in
-  match e_kind e with
-  | KFile => mkZ filename FILE_ATTR (file_text filtered e) mt
-  | KDir => mkZ (filename ++ [SL]) DIR_ATTR [] mt
-  | KLink => mkZ (filename ++ dot_lnk) FILE_ATTR (e_target e) mt
-  end.
-
-Lemma zip_item_pure filtered root force es fe :
-  filtered_ok filtered force es -> In (snd fe) es ->
-  zip_item filtered root force fe = Ok (zip_pure filtered root force fe).
-Proof.
-  intros F Hin. destruct fe as [fp e]. unfold zip_item, zip_pure. cbn [fst snd] in *.
-  destruct (mtime_ok filtered force es e F) as [t Ht]. rewrite Ht.
-  destruct (e_kind e) eqn:K; try reflexivity.
-  unfold symlink_target. destruct filtered; [|reflexivity].
-  destruct (F eq_refl) as [_ Hl]. exfalso. exact (Hl e Hin K).
-Qed.
+  forall e, In e es -> e_kind e <> KLink.
 
 Lemma ends_with_sl_pathjoin root fp :
   good_final fp -> ends_with_sl (pathjoin root fp) = false.
@@ -615,88 +472,65 @@ Proof.
   unfold ends_with_sl in *. rewrite last_app_nonnil by (subst; discriminate). exact Ht.
 Qed.
 
-Lemma zip_decode_pure filtered root force fe :
+Lemma zip_decode_item filtered root force fe :
   good_final (fst fe) -> e_kind (snd fe) <> KLink ->
-  (e_kind (snd fe) = KFile -> e_exec (snd fe) = false) ->
-  zip_decode (zip_pure filtered root force fe)
+  zip_decode (zip_item filtered root force fe)
   = (root_comps root ++ splitc (fst fe), node_of filtered (snd fe)).
 Proof.
-  intros G Hl Hx. destruct fe as [fp e]. unfold zip_pure, zip_decode, node_of. cbn [fst snd] in *.
+  intros G Hl. destruct fe as [fp e]. unfold zip_item, zip_decode, node_of. cbn [fst snd] in *.
   destruct (e_kind e) eqn:K; cbn [z_name z_attr z_content]; [| |congruence].
-  - rewrite ends_with_sl_pathjoin by exact G. rewrite Hx by reflexivity.
-    rewrite splitc_pathjoin by exact G. reflexivity.
+  - rewrite ends_with_sl_pathjoin by exact G.
+    rewrite splitc_pathjoin by exact G. destruct (e_exec e); reflexivity.
   - unfold ends_with_sl at 1. rewrite last_last, N.eqb_refl, removelast_last.
     rewrite splitc_pathjoin by exact G. reflexivity.
 Qed.
 
 Theorem zip_entries_exact_guarded filtered root sd force es :
-  wf_entries es = true -> filtered_ok filtered force es -> zip_guard es ->
-  exists items,
-    zip_items filtered root sd force es = Ok items /\
-    map zip_decode items
-    = spec_export filtered (negb filtered) (root_comps root)
-                  (option_map splitc (norm_subdir sd)) (map abstract es).
+  wf_entries es = true -> zip_guard es ->
+  map zip_decode (zip_items filtered root sd force es)
+  = spec_export filtered true (root_comps root)
+                (option_map splitc (norm_subdir sd)) (map abstract es).
 Proof.
-  intros W F Z. exists (map (zip_pure filtered root force) (export_iter_entries filtered sd es)).
-  split.
-  - unfold zip_items. apply mapM_ok. intros [fp e] Hin.
-    apply (zip_item_pure filtered root force es); [exact F|].
-    apply (selected_good filtered sd es fp e W Hin).
-  - rewrite spec_export_via_select, map_map. apply map_ext_in. intros [fp e] Hin.
-    destruct (selected_good filtered sd es fp e W Hin) as [G Hine].
-    destruct (Z e Hine) as [Z1 Z2]. apply zip_decode_pure; assumption.
+  intros W Z. unfold zip_items.
+  rewrite spec_export_via_select, map_map. apply map_ext_in. intros [fp e] Hin.
+  destruct (selected_good sd es fp e W Hin) as [G Hine].
+  apply zip_decode_item; [exact G | exact (Z e Hine)].
 Qed.
 
-(* witnesses: an executable file loses its bit, a symlink becomes a regular file,
-   and a symlink l collides with a file l.lnk *)
+(* witnesses: a symlink becomes a regular file, and a symlink l collides with a file l.lnk *)
 Definition root_entry : entry := mkE [] KDir [] false [] 0 false.
 Definition w_exec : list entry := [root_entry; mkE [120] KFile [97] true [] 0 false].
 Definition w_link : list entry := [root_entry; mkE [108] KLink [] false [116] 0 false].
 Definition w_coll : list entry :=
   [root_entry; mkE [108] KLink [] false [116] 0 false; mkE [108;46;108;110;107] KFile [97] false [] 0 false].
 
-Theorem zip_exec_refuted :
-  exists es items, wf_entries es = true /\ NoDup (map e_path es) /\
-    zip_items false [82] None (Some 0%Z) es = Ok items /\
-    map zip_decode items <> spec_export false true (root_comps [82]) None (map abstract es).
-Proof.
-  exists w_exec. eexists. split; [reflexivity|]. split; [|split; [vm_compute; reflexivity|vm_compute; discriminate]].
-  repeat constructor; cbn; intuition discriminate.
-Qed.
-
 Theorem zip_symlink_refuted :
-  exists es items, wf_entries es = true /\ NoDup (map e_path es) /\
-    zip_items false [82] None (Some 0%Z) es = Ok items /\
-    map zip_decode items <> spec_export false true (root_comps [82]) None (map abstract es).
+  exists es, wf_entries es = true /\ NoDup (map e_path es) /\
+    map zip_decode (zip_items false [82] None (Some 0%Z) es)
+    <> spec_export false true (root_comps [82]) None (map abstract es).
 Proof.
-  exists w_link. eexists. split; [reflexivity|]. split; [|split; [vm_compute; reflexivity|vm_compute; discriminate]].
+  exists w_link. split; [reflexivity|]. split; [|vm_compute; discriminate].
   repeat constructor; cbn; intuition discriminate.
 Qed.
 
 Theorem zip_names_collide_refuted :
-  exists es items, wf_entries es = true /\ NoDup (map e_path es) /\
-    zip_items false [82] None (Some 0%Z) es = Ok items /\ ~ NoDup (map z_name items).
+  exists es, wf_entries es = true /\ NoDup (map e_path es) /\
+    ~ NoDup (map z_name (zip_items false [82] None (Some 0%Z) es)).
 Proof.
-  exists w_coll. eexists. split; [reflexivity|]. split; [|split; [vm_compute; reflexivity|]].
+  exists w_coll. split; [reflexivity|]. split.
   - repeat constructor; cbn; intuition discriminate.
-  - intro H. inversion H as [|x l Hnin _]; subst. apply Hnin. left; reflexivity.
+  - intro H. vm_compute in H. inversion H as [|x l Hnin _]; subst. apply Hnin. left; reflexivity.
 Qed.
 
-(* the --filters code path: crashes on symlinks and on per-file timestamps, and
-   exports the control files that the unfiltered export leaves out *)
-Definition w_special : list entry :=
-  [root_entry; mkE (dot_bzr ++ [105]) KFile [97] false [] 0 false; mkE [102] KFile [98] false [] 0 false].
+(* --filters changes file contents only: same paths, kinds, executable bits, symlink targets *)
+Definition shape (p : cpath * node) : cpath * kind * bool * bytes :=
+  (fst p, n_kind (snd p), n_exec (snd p), n_target (snd p)).
 
-Theorem filtered_refuted :
-  tarball_items true [82] None (Some 0%Z) w_link = Er NotImpl /\
-  tarball_items true [82] None None w_exec = Er NotImpl /\
-  (exists a b, tarball_items true [82] None (Some 0%Z) w_special = Ok a /\
-               tarball_items false [82] None (Some 0%Z) w_special = Ok b /\
-               map fst (map tar_decode a) <> map fst (map tar_decode b)).
+Theorem filters_only_change_content skip rootc sd ces :
+  map shape (spec_export true skip rootc sd ces) = map shape (spec_export false skip rootc sd ces).
 Proof.
-  split; [reflexivity|]. split; [reflexivity|].
-  do 2 eexists. split; [vm_compute; reflexivity|]. split; [vm_compute; reflexivity|].
-  vm_compute. discriminate.
+  unfold spec_export. rewrite !map_map. apply map_ext. intros [rel e].
+  unfold shape, node_of. cbn [fst snd]. destruct (e_kind e); reflexivity.
 Qed.
 
 (* ------------------------------------------------------------------ *)
@@ -755,16 +589,15 @@ Proof.
 Qed.
 
 (* tar members: decoded paths are pairwise distinct and all lie under the root *)
-Theorem tar_paths_injective filtered root sd force es items :
-  wf_entries es = true -> filtered_ok filtered force es -> NoDup (map e_path es) ->
+Theorem tar_paths_injective filtered root sd force es :
+  wf_entries es = true -> NoDup (map e_path es) ->
   subdir_is_dir (option_map splitc (norm_subdir sd)) (map abstract es) ->
-  tarball_items filtered root sd force es = Ok items ->
+  let items := tarball_items filtered root sd force es in
   NoDup (map fst (map tar_decode items)) /\
   forall it, In it items -> exists rel, rel <> [] /\ fst (tar_decode it) = root_comps root ++ rel.
 Proof.
-  intros W F Hn Hd Hi.
-  destruct (tar_entries_exact filtered root sd force es W F) as [items' [Hi' Hx]].
-  rewrite Hi in Hi'. inversion Hi'; subst items'. split.
+  intros W Hn Hd items.
+  pose proof (tar_entries_exact filtered root sd force es W) as Hx. fold items in Hx. split.
   - rewrite Hx. apply spec_export_nodup; [exact Hd | apply abstract_nodup; exact Hn].
   - intros it Hin. apply (in_map tar_decode) in Hin. rewrite Hx in Hin.
     unfold spec_export in Hin. apply in_map_iff in Hin as [[rel e] [Heq Hin]].
@@ -1034,21 +867,18 @@ Definition eff_root (root : option bytes) (dest : bytes) : bytes :=
 Definition eff_force (pft filtered : bool) (rev_ts now : Z) : option Z :=
   if pft then None else Some (if filtered then now else rev_ts).
 
-Theorem export_dispatch es format dest root sd pft rev_ts now pre :
+Theorem export_dispatch es format dest root sd pft filtered rev_ts now pre :
   let f := match format with Some f => f | None => guess_format dest end in
-  export es format dest root sd pft false rev_ts now pre
+  export es format dest root sd pft filtered rev_ts now pre
   = match f with
-    | FDir => match dir_items false sd (eff_force pft false rev_ts now) pre es with
+    | FDir => match dir_items filtered sd (eff_force pft filtered rev_ts now) pre es with
               | Ok l => Ok (OutDir l) | Er x => Er x end
-    | FZip => match zip_items false (eff_root root dest) sd (eff_force pft false rev_ts now) es with
-              | Ok l => Ok (OutZip l) | Er x => Er x end
-    | f => match tarball_items false (eff_root root dest) sd (eff_force pft false rev_ts now) es with
-           | Ok l => Ok (OutTar f l) | Er x => Er x end
+    | FZip => Ok (OutZip (zip_items filtered (eff_root root dest) sd (eff_force pft filtered rev_ts now) es))
+    | f => Ok (OutTar f (tarball_items filtered (eff_root root dest) sd (eff_force pft filtered rev_ts now) es))
     end.
 Proof.
   cbn zeta. unfold export, eff_root, eff_force.
-  destruct (match format with Some f => f | None => guess_format dest end); try reflexivity.
-  destruct pft; reflexivity.
+  destruct (match format with Some f => f | None => guess_format dest end); reflexivity.
 Qed.
 
 (* ------------------------------------------------------------------ *)
@@ -1060,7 +890,7 @@ Definition ex_tree : list entry :=
     mkE [108] KLink [] false [100;47;103] 1 false;              (* l -> d/g *)
     mkE (dot_bzr ++ [105]) KFile [42] false [] 1 false;         (* .bzri *)
     mkE [100;47;101] KDir [] false [] 2 false;                  (* d/e (empty) *)
-    mkE [100;47;103] KFile [103] false [] 2 true ].             (* d/g *)
+    mkE [100;47;103] KFile [103;10] false [] 2 true ].          (* d/g, eol = crlf applies *)
 
 Example ex_tree_wf : wf_entries ex_tree = true /\ NoDup (map e_path ex_tree).
 Proof.
@@ -1069,19 +899,22 @@ Proof.
 Qed.
 
 Example ex_tar_whole :
-  option_map (map tar_decode)
-    (match tarball_items false [82] None (Some 7%Z) ex_tree with Ok l => Some l | Er _ => None end)
-  = Some [ ([[82]; [100]], mkN KDir [] false []);
+  map tar_decode (tarball_items true [82] None (Some 7%Z) ex_tree)
+  = [ ([[82]; [100]], mkN KDir [] false []);
            ([[82]; [102]], mkN KFile [104;10] true []);
            ([[82]; [108]], mkN KLink [] false [100;47;103]);
            ([[82]; [100]; [101]], mkN KDir [] false []);
-           ([[82]; [100]; [103]], mkN KFile [103] false []) ].
+           ([[82]; [100]; [103]], mkN KFile [103;13;10] false []) ].
+Proof. vm_compute. reflexivity. Qed.
+
+(* zip keeps the executable bit *)
+Example ex_zip_exec :
+  map zip_decode (zip_items false [82] None (Some 0%Z) w_exec) = [([[82]; [120]], mkN KFile [97] true [])].
 Proof. vm_compute. reflexivity. Qed.
 
 Example ex_tar_subdir :
-  option_map (map tar_decode)
-    (match tarball_items false [] (Some [100;47;47]) (Some 7%Z) ex_tree with Ok l => Some l | Er _ => None end)
-  = Some [ ([[101]], mkN KDir [] false []); ([[103]], mkN KFile [103] false []) ].
+  map tar_decode (tarball_items false [] (Some [100;47;47]) (Some 7%Z) ex_tree)
+  = [ ([[101]], mkN KDir [] false []); ([[103]], mkN KFile [103;10] false []) ].
 Proof. vm_compute. reflexivity. Qed.
 
 Example ex_subdir_is_dir :
